@@ -15,7 +15,7 @@ EXPLANATION = (
     "constructors; (R3) every arm of `impl Write for PrintTarget` forwards the same buffer and returns the inner "
     "writer's result (Buffer: appends all of it and returns its length), flush forwards, the dyn-Write conversion "
     "covers all five variants; (R4) every save_scalars is followed by print_status before the next save_scalars or "
-    "post_process, print_status formats info.iterations, the footer follows post_process and formats info.status; "
+    "post_process, print_status formats info.iterations, the footer follows post_process and formats info.status, and the status is final before it is copied into the solution; "
     "(R5) the configuration header formats data.n, data.m, nnz(data.P), nnz(data.A), cones.len(), "
     "presolver.count_reduced() next to their labels.")
 ASSUMPTIONS = ['rustc MIR construction and trait resolution are correct',
